@@ -81,6 +81,16 @@ CHECKS = {
              "injectivity of the base32 encoding is not proved (only length and alphabet). has_profile = false is proved but unreachable from the CLI.",
         technique="Coq proof (case analysis of the routing function over all methods/paths/headers; encoder length/alphabet) + end-to-end correspondence run against the running server, evaluated by vm_compute",
         design="4/C18"),
+    "C15": dict(
+        text="Coq theorems C15_evict (after a pass: total <= maximum, nothing older than the maximum age, nothing outside touched, nothing added), C15_lru_prefix_minimal "
+             "(the size pass selects exactly the shortest prefix of the access-time order covering the excess; nothing when the total fits, including total = maximum), C15_idempotent, "
+             "C15_bookkeeping, C15_confined, C15_restart, C15_reachable_unique - for every state reachable by any history. Tied to the real QuotaManager + sqlite inventory on scratch "
+             "directories (eviction run synchronously through a cfg(samply_verif) hook), inventory rows and directory listings compared with the model inside Coq. "
+             "F-C15a/b were found, fixed and stay in corpus/C15.",
+        note="Trusted: Coq kernel; SQLite (durability, tie order = rowid); harness h_quota; the two hooks. Not exercised: a crash between unlink and row deletion; "
+             "delete errors other than NotFound; the Notify-coalescing of the background task (the hook runs the same pass synchronously).",
+        technique="Coq proof (unique-key invariant over histories; prefix/permutation reasoning for the LRU selection; idempotence) + differential correspondence run evaluated by vm_compute",
+        design="4/C15"),
 }
 
 NOT_YET = "check not built yet in this development (planned: see DESIGN.md section 4); no claim is made"
@@ -127,7 +137,7 @@ def main():
         f.write("\n")
 
 NA = {}
-HOOK_COMMITS = []
+HOOK_COMMITS = ["c502d39b"]
 
 if __name__ == "__main__":
     main()
